@@ -111,8 +111,14 @@ let trace_main ?(emit = 0) ?(skip = 0) file =
          | ["RM"; k] -> if in_model (cz k) && find_obs (cz k) = None then apply st (ORemove (cz k))
          | "SZ" :: _ -> if zs (m_bits !st) <> obits then apply st (OResize (cz obits))
          | _ -> ());
-        (* every remaining difference of geometry is a size / position edit of a placed signal *)
-        List.iter (fun g ->
+        (* Placements, removal, SetByteOrder and resize are fully determined by the model (append
+           position = end of the last signal, insert position and order, removal, no movement): the
+           predicted state is compared as it is.  Only the abstracted edits (SetType, SetEnum, enum
+           edits, shifts, compact) take their resulting geometry from the observation, as OSetGeom. *)
+        let abstracted = match op with
+          | ("AP" | "IN" | "RM" | "BO" | "SZ") :: _ -> false
+          | _ -> true in
+        if abstracted then List.iter (fun g ->
             match List.find_opt (fun x -> x.s_id = g.s_id) (m_sigs !st) with
             | Some x when x.s_start <> g.s_start || x.s_size <> g.s_size ->
               apply st (OSetGeom (g.s_id, g.s_start, g.s_size))
